@@ -65,4 +65,17 @@ def wrongPairs (i : Indep) (groups : List (String × List String)) (kerning : Li
     else
       !(adv == expected && (if rtl then (pla == expected || (hasL && pla == 0)) else pla == 0)))
 
+/-- kerning-group name prefixes -/
+def is1 (n : String) : Bool := n.startsWith SIDE1_PREFIX
+def is2 (n : String) : Bool := n.startsWith SIDE2_PREFIX
+
+/-- the inputs for which the kern writer is claimed to realise UFO kerning semantics:
+    * the groups are valid UFO 3 kerning groups (no glyph in two groups of one side),
+    * group names are distinct and kerning keys (first, second) are distinct (both are Python dict keys),
+    * no glyph of the font is called like a kerning group (`public.kern1.*` / `public.kern2.*`). -/
+def wfKern (glyphSet : List String) (groups : List (String × List String)) (kerning : List (String × String × Q)) : Bool :=
+  validGroups groups && decide (groups.map (·.1)).Nodup &&
+  groups.all (fun e => !((is1 e.1 || is2 e.1) && glyphSet.contains e.1)) &&
+  decide (kerning.map (fun e => (e.1, e.2.1))).Nodup
+
 end Ufo2ft.C05
